@@ -5,7 +5,7 @@ from . import inputs, hist
 PROP = 'C17'
 LEVEL = 'exploration'
 WALL_CAP = {'quick': 200, 'thorough': 2400}
-RUNS = {'quick': 3000, 'thorough': 40000}
+RUNS = {'quick': 8000, 'thorough': 60000}
 RULE = ('one run = FO4/FO76 BSSubIndexTriShape (API-built, or the FO4 samples) or a skinned OB/FO3/SK/SSE shape + 1..6 steps of SetShapeSegments '
         '(1..5 segments with 0..3 sub-segments, labels incl. -1, an empty segment, permuted part ids; optionally labels on a segment that also has '
         'sub-segments) / SetShapePartitions (labels incl. -1), vertex deletions and restarts. Oracle: labels read back equal the given ones under the '
@@ -59,8 +59,17 @@ def gen_plan(seed, i, tier):
     return {'property': PROP, 'profile': 'mesh', 'run_index': i, 'init': init, 'steps': steps, 'timeout_s': 60}
 
 
+def _with_faults(plan, seed, i):
+    # a quarter of the restarts first lose a save attempt to a failing stream (disk full / EIO after k bytes), then retry
+    r = Rng(seed, PROP, 'wfail', i)
+    for st in plan['steps']:
+        if st.get('op') == 'Restart' and r.chance(0.25):
+            st['fail_first'] = r.weighted([(r.below(400), 2), (r.below(20000), 3)])
+    return plan
+
+
 def jobs(tier, seed, pool):
-    return [{'plan': gen_plan(seed, i, tier), 'meta': {}} for i in range(RUNS[tier])]
+    return [{'plan': _with_faults(gen_plan(seed, i, tier), seed, i), 'meta': {}} for i in range(RUNS[tier])]
 
 
 account = hist.account
